@@ -120,6 +120,8 @@ def entry_configs(cls: str) -> list:
             out.append((pi, 2, "flat", True, w))
     if cls != "graph":
         out.append((3, 250, "flat", True, "graph_serialize_default"))  # no options at all
+        out.append((3, 250, "flat", True, "flat_to_file_default"))
+        out.append((3, 250, "flat", True, "grouped_to_file_default"))
     return out
 
 
